@@ -319,6 +319,8 @@ class Interp:
             return self.dom.enum_const(e)
         if k == "This":
             return fr.this
+        if k == "FnRef":
+            return ("fnref", e["name"])
         if k == "Ref":
             c = fr.vars.get(e["id"])
             if c is None:
